@@ -84,7 +84,14 @@ class Stepper:
         with self.cv:
             ok = self.cv.wait_for(lambda: self.state[key][0] != "running", timeout)
         if not ok:
-            raise RuntimeError("stepped thread %r did not reach a yield point" % (key,))
+            import sys, traceback
+            frames = sys._current_frames()
+            dump = []
+            for t in threading.enumerate():
+                fr = frames.get(t.ident)
+                if fr is not None and t is not threading.current_thread():
+                    dump.append("%s: %s" % (t.name, " < ".join("%s:%d" % (f.f_code.co_name, f.f_lineno) for f, _ in list(traceback.walk_stack(fr))[:6])))
+            raise RuntimeError("stepped thread %r did not reach a yield point; live threads: %s" % (key, " | ".join(dump)))
         return self.state[key]
 
     def where(self, key):
@@ -101,9 +108,11 @@ class Stepper:
             self.cv.notify_all()
         return self.wait_parked(key)
 
-    def finish_all(self, max_steps=1000):
+    def finish_all(self, max_steps=1000, skip=()):
         n = 0
         for key in list(self.state):
+            if key in skip:
+                continue
             while self.where(key)[0] == "parked" and n < max_steps:
                 self.advance(key)
                 n += 1
